@@ -17,3 +17,12 @@ Theorem c13_refuted_drop :
   script_targets env_none false [] [w_insert_values; w_drop] = [].
 Proof. split; vm_compute; reflexivity. Qed.
 Print Assumptions c13_refuted_drop.
+
+(** A provider that has no metadata (it is falsy) is never consulted: whatever it would answer, the
+    analysis is the same (this is the "unknown tables get the same answer" clause for a provider that
+    knows nothing at all; for a provider that knows other tables it is checked by correspondence). *)
+From SV Require Import Tree.ProviderProofs.
+Theorem c13_no_metadata_same : forall e e' silent s,
+  same_but_cols e e' -> analyze e silent s = analyze e' silent s.
+Proof. exact analyze_falsy_provider. Qed.
+Print Assumptions c13_no_metadata_same.
